@@ -411,9 +411,14 @@ def rand_history(r, pyte=True):
         rows = rand_rows(r, n, w)
         if prev and r.random() < 0.5:
             rows = [prev[i] if i < len(prev) and r.random() < 0.6 else rows[i] for i in range(n)]
+            # the same text with other formatting or none (then possibly handed over as a plain str)
+            rows = [group([(ch, a) for t, _ in row for ch in t]) if r.random() < 0.3 else row
+                    for row in rows for a in [r.choice(ATTS + [{}, {}])]]
         prev = rows
         # the array as a list of FmtStr, an FSArray (rows of one width) or a list of plain str (unformatted rows)
-        c["steps"].append(("R", (r.randint(0, max(n - 1, 0)), r.randint(0, w - 1)), rows, container_for(r, rows)))
+        container, rows = container_for(r, rows, w)
+        prev, n = rows, len(rows)
+        c["steps"].append(("R", (r.randint(0, max(n - 1, 0)), r.randint(0, w - 1)), rows, container))
     c["steps"].append(("X",))
     if r.random() < 0.05:
         # rarely: one row longer than the terminal (the property does not bound row lengths; finding D41)
@@ -540,6 +545,16 @@ def exhaustive(ctx):
             a2 = [group([(chr(97 + i), {})] * (w1 if i % 3 else max(w1 - 1, 0))) for i in range(n2)]
             cases.append(dict(h=h1, w=w1, screen=scr, sb=[[("o", ())] * w1], cursor=(crow, 0), hide=True, keep=bool(keep), pyte=False,
                               steps=[("E",), ("R", (max(n1 - 1, 0), 0), a1), ("R", (0, w1 - 1), a2), ("X",)]))
+    # the same text with and without formatting on the same row in consecutive renders, as FmtStr / plain str / FSArray
+    # rows (the row-diff must tell them apart), and FSArrays whose DECLARED width is the terminal's or more while their
+    # rows are shorter (rows are not padded: a short row over a longer old one must still clear the tail)
+    red = {"fg": 31}
+    for first, second in itertools.product((("ab", red), ("ab", {}), ("abc", {}), ("abc", red)), (("ab", red), ("ab", {}), ("a", {}), ("", {}))):
+        for c1, c2 in itertools.product(("list", "mixed", "fsarray:3", "fsarray:5", "fsarrayset:3"), repeat=2):
+            for crow in (0, 2):
+                cases.append(dict(h=3, w=3, screen=[], sb=[], cursor=(crow, 0), hide=True, keep=False, pyte=False,
+                                  steps=[("E",), ("R", (0, 0), [[first] if first[0] else []], c1),
+                                         ("R", (0, 1), [[second] if second[0] else []], c2), ("X",)]))
     # leaving with keep_last_line on/off with the cursor on EVERY row, in particular the bottom one (the kept line must
     # survive: the screen scrolls one line), after 0-2 rendered rows
     for h2, crow, n, keep in itertools.product((1, 2, 3), range(3), range(3), (0, 1)):
